@@ -512,12 +512,13 @@ class ScalarExpression(ExpressionBase):
             if user_funcs is None:
                 user_funcs = expression.user_funcs
             else:
-                user_funcs.update(expression.user_funcs)
+                # do not modify the dictionary supplied by the caller
+                user_funcs = {**user_funcs, **expression.user_funcs}
 
             if consts is None:
                 consts = expression.consts
             else:
-                consts.update(expression.consts)
+                consts = {**consts, **expression.consts}
 
         elif callable(expression):
             # expression is some other callable -> not allowed anymore
@@ -726,11 +727,12 @@ class TensorExpression(ExpressionBase):
             if user_funcs is None:
                 user_funcs = expression.user_funcs
             else:
-                user_funcs.update(expression.user_funcs)
+                # do not modify the dictionary supplied by the caller
+                user_funcs = {**user_funcs, **expression.user_funcs}
             if consts is None:
                 consts = expression.consts
             else:
-                consts.update(expression.consts)
+                consts = {**consts, **expression.consts}
 
         elif isinstance(expression, (np.ndarray, list, tuple)):
             # expression is a constant array
